@@ -1,0 +1,468 @@
+//! Verification hooks. Compiled only with `--cfg sighook_verif`; never part of a normal build.
+//!
+//! * [`shim`] mirrors the handful of `std::sync` types the lock-free parts of the library use.
+//!   Every operation first reports itself to an installable `before` callback (a scheduling
+//!   point: an external deterministic scheduler may park the calling thread there, or run a
+//!   nested signal delivery on it), then performs the real `std` operation, then reports the
+//!   outcome to an `after` callback. With no callbacks installed the shim is a plain forwarder.
+//! * [`event`] / [`syscall`] report abstract events and system-call scheduling points.
+//! * [`deliver`], [`handler_addr`], [`reset`], [`registry_layout`] and [`VerifHalfLock`] expose
+//!   the dispatcher and the half-lock for small-scope exploration.
+#![allow(missing_docs)]
+
+use std::ptr;
+use std::sync::atomic::{AtomicPtr as StdAtomicPtr, Ordering};
+
+use libc::{c_int, c_void, siginfo_t};
+
+use super::half_lock::HalfLock;
+
+#[derive(Clone, Copy, Debug, PartialEq, Eq)]
+pub enum Kind {
+    Load,
+    Store,
+    Swap,
+    FetchAdd,
+    FetchSub,
+    Cas,
+    CasWeak,
+    MutexLock,
+    MutexUnlock,
+    Yield,
+    Spin,
+    Syscall,
+    SyscallBlocking,
+    Event,
+}
+
+/// One shared-memory operation / scheduling point.
+#[derive(Clone, Copy, Debug)]
+pub struct Op {
+    pub kind: Kind,
+    /// Address of the atomic / mutex (0 when not applicable; the descriptor for system calls).
+    pub loc: usize,
+    pub ord: Ordering,
+    pub fail: Ordering,
+    /// Operand (value stored / added / expected).
+    pub a: u64,
+    /// Second operand (new value of a compare-exchange).
+    pub b: u64,
+    pub name: &'static str,
+}
+
+/// Directive bit a `before` callback may return: make this `compare_exchange_weak` fail
+/// spuriously (the shim then only performs a load with the failure ordering).
+pub const DIRECTIVE_SPURIOUS: u32 = 1;
+
+pub struct Hooks {
+    /// Called before the operation; may block. Returns directive bits.
+    pub before: fn(&Op) -> u32,
+    /// Called right after the operation with (old, new, success).
+    pub after: fn(&Op, u64, u64, bool),
+}
+
+static HOOKS: StdAtomicPtr<Hooks> = StdAtomicPtr::new(ptr::null_mut());
+
+pub fn install(hooks: &'static Hooks) {
+    HOOKS.store(hooks as *const Hooks as *mut Hooks, Ordering::SeqCst);
+}
+
+pub fn uninstall() {
+    HOOKS.store(ptr::null_mut(), Ordering::SeqCst);
+}
+
+#[inline]
+fn hooks() -> Option<&'static Hooks> {
+    unsafe { HOOKS.load(Ordering::SeqCst).as_ref() }
+}
+
+#[inline]
+fn before(op: &Op) -> u32 {
+    match hooks() {
+        Some(h) => (h.before)(op),
+        None => 0,
+    }
+}
+
+#[inline]
+fn after(op: &Op, old: u64, new: u64, ok: bool) {
+    if let Some(h) = hooks() {
+        (h.after)(op, old, new, ok);
+    }
+}
+
+fn op(kind: Kind, loc: usize, ord: Ordering, fail: Ordering, a: u64, b: u64) -> Op {
+    Op {
+        kind,
+        loc,
+        ord,
+        fail,
+        a,
+        b,
+        name: "",
+    }
+}
+
+/// Report an abstract event (no scheduling point).
+pub fn event(name: &'static str, a: usize, b: usize) {
+    let mut o = op(Kind::Event, 0, Ordering::Relaxed, Ordering::Relaxed, a as u64, b as u64);
+    o.name = name;
+    after(&o, 0, 0, true);
+}
+
+/// A scheduling point in front of a system call that never blocks.
+pub fn syscall(name: &'static str, fd: c_int) {
+    let mut o = op(Kind::Syscall, fd as usize, Ordering::SeqCst, Ordering::SeqCst, 0, 0);
+    o.name = name;
+    before(&o);
+    after(&o, 0, 0, true);
+}
+
+/// A scheduling point in front of a system call that blocks until `fd` is readable.
+pub fn syscall_blocking(name: &'static str, fd: c_int) {
+    let mut o = op(Kind::SyscallBlocking, fd as usize, Ordering::SeqCst, Ordering::SeqCst, 0, 0);
+    o.name = name;
+    before(&o);
+    after(&o, 0, 0, true);
+}
+
+pub mod shim {
+    use std::fmt::{Debug, Formatter, Result as FmtResult};
+    use std::ops::{Deref, DerefMut};
+    use std::sync::atomic::{self as sa, Ordering};
+    use std::sync::{self, LockResult, PoisonError};
+
+    use super::{after, before, op, Kind, DIRECTIVE_SPURIOUS};
+
+    fn fail_for(ord: Ordering) -> Ordering {
+        match ord {
+            Ordering::Release | Ordering::Relaxed => Ordering::Relaxed,
+            Ordering::AcqRel | Ordering::Acquire => Ordering::Acquire,
+            _ => Ordering::SeqCst,
+        }
+    }
+
+    macro_rules! int_atomic {
+        ($name:ident, $std:ident, $t:ty) => {
+            #[derive(Default)]
+            pub struct $name(sa::$std);
+
+            impl Debug for $name {
+                fn fmt(&self, fmt: &mut Formatter) -> FmtResult {
+                    Debug::fmt(&self.0, fmt)
+                }
+            }
+
+            impl $name {
+                pub const fn new(v: $t) -> Self {
+                    $name(sa::$std::new(v))
+                }
+                fn loc(&self) -> usize {
+                    self as *const _ as usize
+                }
+                pub fn load(&self, ord: Ordering) -> $t {
+                    let o = op(Kind::Load, self.loc(), ord, ord, 0, 0);
+                    before(&o);
+                    let v = self.0.load(ord);
+                    after(&o, v as u64, v as u64, true);
+                    v
+                }
+                pub fn store(&self, v: $t, ord: Ordering) {
+                    let o = op(Kind::Store, self.loc(), ord, ord, v as u64, 0);
+                    before(&o);
+                    // swap so that the old value can be reported; same ordering class for the
+                    // store half.
+                    let old = self.0.swap(v, ord_for_swap(ord));
+                    after(&o, old as u64, v as u64, true);
+                }
+                pub fn swap(&self, v: $t, ord: Ordering) -> $t {
+                    let o = op(Kind::Swap, self.loc(), ord, ord, v as u64, 0);
+                    before(&o);
+                    let old = self.0.swap(v, ord);
+                    after(&o, old as u64, v as u64, true);
+                    old
+                }
+                pub fn compare_exchange(
+                    &self,
+                    cur: $t,
+                    new: $t,
+                    ord: Ordering,
+                    fail: Ordering,
+                ) -> Result<$t, $t> {
+                    let o = op(Kind::Cas, self.loc(), ord, fail, cur as u64, new as u64);
+                    before(&o);
+                    let r = self.0.compare_exchange(cur, new, ord, fail);
+                    match r {
+                        Ok(old) => after(&o, old as u64, new as u64, true),
+                        Err(old) => after(&o, old as u64, old as u64, false),
+                    }
+                    r
+                }
+                pub fn compare_exchange_weak(
+                    &self,
+                    cur: $t,
+                    new: $t,
+                    ord: Ordering,
+                    fail: Ordering,
+                ) -> Result<$t, $t> {
+                    let o = op(Kind::CasWeak, self.loc(), ord, fail, cur as u64, new as u64);
+                    let directive = before(&o);
+                    let r = if directive & DIRECTIVE_SPURIOUS != 0 {
+                        Err(self.0.load(fail))
+                    } else {
+                        self.0.compare_exchange(cur, new, ord, fail)
+                    };
+                    match r {
+                        Ok(old) => after(&o, old as u64, new as u64, true),
+                        Err(old) => after(&o, old as u64, old as u64, false),
+                    }
+                    r
+                }
+            }
+        };
+    }
+
+    fn ord_for_swap(ord: Ordering) -> Ordering {
+        // A store may not be Acquire/AcqRel; a swap may be anything. Keep the declared one.
+        ord
+    }
+
+    int_atomic!(AtomicUsize, AtomicUsize, usize);
+    int_atomic!(AtomicU16, AtomicU16, u16);
+    int_atomic!(AtomicBool, AtomicBool, bool);
+
+    impl AtomicUsize {
+        pub fn fetch_add(&self, v: usize, ord: Ordering) -> usize {
+            let o = op(Kind::FetchAdd, self.loc(), ord, fail_for(ord), v as u64, 0);
+            before(&o);
+            let old = self.0.fetch_add(v, ord);
+            after(&o, old as u64, old.wrapping_add(v) as u64, true);
+            old
+        }
+        pub fn fetch_sub(&self, v: usize, ord: Ordering) -> usize {
+            let o = op(Kind::FetchSub, self.loc(), ord, fail_for(ord), v as u64, 0);
+            before(&o);
+            let old = self.0.fetch_sub(v, ord);
+            after(&o, old as u64, old.wrapping_sub(v) as u64, true);
+            old
+        }
+    }
+
+    pub struct AtomicPtr<T>(sa::AtomicPtr<T>);
+
+    impl<T> Default for AtomicPtr<T> {
+        fn default() -> Self {
+            AtomicPtr(sa::AtomicPtr::default())
+        }
+    }
+
+    impl<T> Debug for AtomicPtr<T> {
+        fn fmt(&self, fmt: &mut Formatter) -> FmtResult {
+            Debug::fmt(&self.0, fmt)
+        }
+    }
+
+    impl<T> AtomicPtr<T> {
+        pub const fn new(p: *mut T) -> Self {
+            AtomicPtr(sa::AtomicPtr::new(p))
+        }
+        fn loc(&self) -> usize {
+            self as *const _ as usize
+        }
+        /// Read the pointer without reporting anything.
+        pub fn peek(&self) -> *mut T {
+            self.0.load(Ordering::SeqCst)
+        }
+        pub fn load(&self, ord: Ordering) -> *mut T {
+            let o = op(Kind::Load, self.loc(), ord, ord, 0, 0);
+            before(&o);
+            let v = self.0.load(ord);
+            after(&o, v as usize as u64, v as usize as u64, true);
+            v
+        }
+        pub fn swap(&self, p: *mut T, ord: Ordering) -> *mut T {
+            let o = op(Kind::Swap, self.loc(), ord, ord, p as usize as u64, 0);
+            before(&o);
+            let old = self.0.swap(p, ord);
+            after(&o, old as usize as u64, p as usize as u64, true);
+            old
+        }
+        pub fn store(&self, p: *mut T, ord: Ordering) {
+            let o = op(Kind::Store, self.loc(), ord, ord, p as usize as u64, 0);
+            before(&o);
+            let old = self.0.swap(p, ord);
+            after(&o, old as usize as u64, p as usize as u64, true);
+        }
+    }
+
+    pub struct Mutex<T>(sync::Mutex<T>);
+
+    pub struct MutexGuard<'a, T: 'a> {
+        inner: Option<sync::MutexGuard<'a, T>>,
+        loc: usize,
+    }
+
+    impl<T: Debug> Debug for Mutex<T> {
+        fn fmt(&self, fmt: &mut Formatter) -> FmtResult {
+            Debug::fmt(&self.0, fmt)
+        }
+    }
+
+    impl<T> Mutex<T> {
+        pub fn new(t: T) -> Self {
+            Mutex(sync::Mutex::new(t))
+        }
+        pub fn lock(&self) -> LockResult<MutexGuard<T>> {
+            let loc = self as *const _ as usize;
+            let o = op(Kind::MutexLock, loc, Ordering::Acquire, Ordering::Acquire, 0, 0);
+            before(&o);
+            let r = self.0.lock();
+            let poisoned = r.is_err();
+            after(&o, 0, 1, !poisoned);
+            match r {
+                Ok(g) => Ok(MutexGuard {
+                    inner: Some(g),
+                    loc,
+                }),
+                Err(p) => Err(PoisonError::new(MutexGuard {
+                    inner: Some(p.into_inner()),
+                    loc,
+                })),
+            }
+        }
+    }
+
+    impl<'a, T> Deref for MutexGuard<'a, T> {
+        type Target = T;
+        fn deref(&self) -> &T {
+            self.inner.as_ref().unwrap()
+        }
+    }
+
+    impl<'a, T> DerefMut for MutexGuard<'a, T> {
+        fn deref_mut(&mut self) -> &mut T {
+            self.inner.as_mut().unwrap()
+        }
+    }
+
+    impl<'a, T> Drop for MutexGuard<'a, T> {
+        fn drop(&mut self) {
+            let o = op(
+                Kind::MutexUnlock,
+                self.loc,
+                Ordering::Release,
+                Ordering::Release,
+                std::thread::panicking() as u64,
+                0,
+            );
+            // Really unlock first (poisoning it if we are unwinding), then report.
+            drop(self.inner.take());
+            after(&o, 1, 0, true);
+        }
+    }
+
+    pub fn yield_now() {
+        let o = op(Kind::Yield, 0, Ordering::Relaxed, Ordering::Relaxed, 0, 0);
+        before(&o);
+        if super::hooks().is_none() {
+            std::thread::yield_now();
+        }
+        after(&o, 0, 0, true);
+    }
+
+    pub fn spin_loop_hint() {
+        let o = op(Kind::Spin, 0, Ordering::Relaxed, Ordering::Relaxed, 0, 0);
+        before(&o);
+        std::hint::spin_loop();
+        after(&o, 0, 0, true);
+    }
+}
+
+/// Invoke the library's real signal dispatcher as the kernel would.
+pub unsafe fn deliver(sig: c_int, info: *mut siginfo_t, ctx: *mut c_void) {
+    super::handler(sig, info, ctx)
+}
+
+/// Address of the library's dispatcher (to compare with `sigaction(sig, NULL, ..)`).
+pub fn handler_addr() -> usize {
+    super::handler as usize
+}
+
+/// Make sure the global registry exists.
+pub fn ensure() {
+    super::GlobalData::ensure();
+}
+
+/// Forget every registration: put back the dispositions that were live before the library took
+/// each signal over and start from an empty registry. Only legal when nothing else uses the
+/// registry.
+#[allow(static_mut_refs)]
+pub unsafe fn reset() {
+    super::GlobalData::ensure();
+    if let Some(old) = super::GLOBAL_DATA.take() {
+        {
+            let data = old.data.read();
+            for (sig, slot) in &data.signals {
+                libc::sigaction(*sig, &slot.prev.info, ptr::null_mut());
+            }
+        }
+        drop(old);
+    }
+    super::GLOBAL_DATA = Some(super::GlobalData {
+        data: HalfLock::new(super::SignalData {
+            signals: std::collections::HashMap::new(),
+            next_id: 1,
+        }),
+        race_fallback: HalfLock::new(None),
+    });
+}
+
+/// Addresses of (data pointer, generation, lock[0], lock[1], writer mutex) of the two global
+/// half-locks: `(data, race_fallback)`.
+pub fn registry_layout() -> ([usize; 5], [usize; 5]) {
+    let g = super::GlobalData::ensure();
+    (g.data.layout(), g.race_fallback.layout())
+}
+
+/// The registry's current content: per signal (ascending) the action ids in dispatch order, and
+/// the next id.
+pub fn registry_content() -> (Vec<(c_int, Vec<u128>)>, u128) {
+    let g = super::GlobalData::ensure();
+    let data = g.data.read();
+    let mut sigs: Vec<(c_int, Vec<u128>)> = data
+        .signals
+        .iter()
+        .map(|(s, slot)| (*s, slot.actions.keys().map(|k| k.0).collect()))
+        .collect();
+    sigs.sort();
+    (sigs, data.next_id)
+}
+
+/// The numeric part of an id.
+pub fn id_of(id: super::SigId) -> (c_int, u128) {
+    (id.signal, id.action.0)
+}
+
+/// A thin public wrapper over the half-lock.
+pub struct VerifHalfLock<T>(HalfLock<T>);
+
+impl<T> VerifHalfLock<T> {
+    pub fn new(t: T) -> Self {
+        VerifHalfLock(HalfLock::new(t))
+    }
+    pub fn read_with<R, F: FnOnce(&T) -> R>(&self, f: F) -> R {
+        let guard = self.0.read();
+        f(&guard)
+    }
+    pub fn store(&self, val: T) {
+        self.0.write().store(val);
+    }
+    pub fn update<F: FnOnce(&T) -> T>(&self, f: F) {
+        let mut guard = self.0.write();
+        let new = f(&guard);
+        guard.store(new);
+    }
+    pub fn layout(&self) -> [usize; 5] {
+        self.0.layout()
+    }
+}
